@@ -174,16 +174,17 @@ def observable : Class → Bool
   | _ => true
 
 /-- Agreement on everything a run can observe: all fields except caches and scratch; the context fields only when the
-context is polled at all. -/
-def ObsEq (s₁ s₂ : FState) : Prop :=
-  ∀ f c, classOf f = some c →
+context is polled at all. `X` lists fields left out of the comparison (the fields whose reset obligation fails on the
+current source — `leaks` in Proofs/C14Fields.lean; empty when the source is sound). -/
+def ObsEq (X : List String) (s₁ s₂ : FState) : Prop :=
+  ∀ f c, classOf f = some c → f ∉ X →
     (observable c = true ∨ (c = .ctxAux ∧ s₁ "checkCtx" ≠ ("zero", ""))) → s₁ f = s₂ f
 
 /-- The assumptions on the rest of the interpreter (validated by the history oracle, not proved):
 the result of a run depends only on observable fields, and so does what it leaves in the variables and the generator;
 immutable fields are not written. -/
-structure Sem.Ok (S : Sem Cfg Result) : Prop where
-  run_obs : ∀ cfg s₁ s₂, ObsEq s₁ s₂ → (S.run cfg s₁).2 = (S.run cfg s₂).2
+structure Sem.Ok (X : List String) (S : Sem Cfg Result) : Prop where
+  run_obs : ∀ cfg s₁ s₂, ObsEq X s₁ s₂ → (S.run cfg s₁).2 = (S.run cfg s₂).2
   run_immutable : ∀ cfg s f, classOf f = some .immutable → (S.run cfg s).1 f = s f
 
 /-- state just before `executeAll` -/
